@@ -526,7 +526,7 @@ theorem stepInv_invFU {nw : Network} (hn : NetHyp nw) : C11A.StepInv nw (InvFU n
   step := fun s op r hinv hargs h =>
     ⟨C11A.invF_step nw hn s op r hinv.invF hargs h, C09_unserved_step nw hn s op r hinv.invF.inv hinv.uexact hargs h⟩
   fresh := fun _ _ _ hinv hpt => C11A.tour_ne_fresh hinv.invF hpt
-  setT := fun s trans h => ⟨(C11A.stepInv_invF hn).setT s trans h.invF, h.uexact⟩
+  setT := fun s trans hnd h => ⟨(C11A.stepInv_invF hn).setT s trans hnd h.invF, h.uexact⟩
   empty := by
     refine ⟨(C11A.stepInv_invF hn).empty, ?_⟩
     have h0 : applyOp nw (Schedule.empty nw) .init = .ok { sched := Schedule.empty nw } := rfl
@@ -566,10 +566,10 @@ theorem C09_unserved_from_empty (nw : Network) (hn : NetHyp nw) (ops : List SOp)
 
 /-- … and the same for every candidate of every neighbourhood, the search result and every stage
     of the modelled pipeline -/
-theorem C09_unserved_pipeline (nw : Network) (hn : NetHyp nw) (o : Solve.Oracle) (tr : Solve.Trace)
-    (h : Solve.solve nw o = .ok tr) :
+theorem C09_unserved_pipeline (nw : Network) (hn : NetHyp nw) (o : Solve.Oracle)
+    (hopt : ∀ s, ((o.optimise s).map (·.1)).Nodup) (tr : Solve.Trace) (h : Solve.solve nw o = .ok tr) :
     UExact nw tr.start ∧ UExact nw tr.afterSearch ∧ UExact nw tr.final := by
-  obtain ⟨i2, i3, i5⟩ := C11A.solve_inv (stepInv_invFU hn) o tr h
+  obtain ⟨i2, i3, i5⟩ := C11A.solve_inv (stepInv_invFU hn) o hopt tr h
   exact ⟨i2.uexact, i3.uexact, i5.uexact⟩
 
 theorem C09_unserved_candidates (nw : Network) (hn : NetHyp nw) {limit threshold : Option Nat} {s : Schedule}
